@@ -79,3 +79,18 @@ Example C05_nonvacuous :
   exists a' c' o, handle_del a (Conn 7 [] [s] 0) 5 = (a', c', o) /\ o_reply o = Some (RDel 77 CAUSE_OK) /\
                   a_tables a' = no_tables /\ used (a_teids a') = [] /\ a_gauge a' = 0 /\ length (o_cmds o) = 4%nat.
 Proof. do 3 eexists. repeat split; vm_compute; reflexivity. Qed.
+
+(* ---- along EVERY history over any number of associations (Model/World.v) - accepted and rejected establishments
+   and modifications, deletions, report responses, releases, teardowns, restarts, garbage - the sessions gauge is
+   exactly the number of live sessions, and local SEIDs stay distinct inside every association: a session's unit in
+   the gauge is returned on each of the four endings whatever preceded, and no number of attach/detach cycles
+   makes it drift (the statement is for histories of unbounded length) *)
+From UPF Require Import Model.World Proofs.WorldProofs.
+Theorem C05_gauge_counts_live_sessions : forall burst es w w',
+  gauge_inv w -> forallb restart_ok es = true -> wrun burst w es = Done w' -> gauge_inv w'.
+Proof. exact gauge_invariant. Qed.
+Print Assumptions C05_gauge_counts_live_sessions.
+
+Example C05_gauge_nonvacuous :
+  gauge_inv (World (Agent (Cfg 100 200 true) None (Gen 0 []) 0 no_tables) []).
+Proof. constructor; cbn; [constructor|intros kc []|reflexivity]. Qed.
